@@ -74,6 +74,9 @@ def frames_of(spec):
     data = pd.DataFrame(np.array(spec["prices"], dtype=float), index=idx, columns=spec["tickers"])
     extras = {}
     for name, f in spec["extras"].items():
+        if "dict" in f:
+            extras[name] = {k: pd.DataFrame(np.array(g["values"], dtype=float), index=idx, columns=g["cols"]) for k, g in f["dict"].items()}
+            continue
         rows = f.get("rows")
         ix = idx if rows is None else idx[rows]
         arr = np.array(f["values"], dtype=object if f.get("bool") else float)
@@ -314,6 +317,18 @@ def gen_stack(rng, rs, spec, names, priced, prefix, opts, is_child=False):
     else:
         st.append({"$run_always": {"a": "RebalanceOverTime", "args": [rng.randint(2, 5)]}} if rng.random() < 0.5 else {"a": "RebalanceOverTime", "args": [rng.randint(2, 5)]})
         desc.append("rot")
+    if opts.get("risk") and not is_child and len(priced) >= 2 and rng.random() < opts["risk"]:
+        measures = ["M%d" % i for i in range(rng.randint(1, min(2, len(priced))))]
+        hedges = rng.sample(priced, len(measures))
+        spec["extras"]["unit_risk"] = {"dict": {m: {"cols": list(names), "values": rs.randn(nd, len(names)).round(4).tolist()} for m in measures}}
+        hist = rng.randint(0, 2)
+        for m in measures:
+            st.append({"a": "UpdateRisk", "args": [m], "kw": {"history": hist}})
+        st.append({"a": "SelectThese", "args": [hedges]})
+        st.append({"a": "HedgeRisks", "args": [measures], "kw": {"pseudo": rng.random() < 0.3}})
+        for m in measures:
+            st.append({"a": "UpdateRisk", "args": [m], "kw": {"history": hist}})
+        desc.append("risk")
     return st, desc
 
 
